@@ -132,7 +132,21 @@ func (s *Sched) newThread(name string, f func()) *Thread {
 				s.doneCh.signal() // teardown resumes one thread at a time
 				return
 			}
-			s.pickNext(nil)
+			func() {
+				// the choice of the next thread may itself be the point at which a replayed
+				// prefix stops fitting: note it (Run re-raises it) and carry on with defaults
+				defer func() {
+					if r := recover(); r != nil {
+						ne, ok := r.(explore.NondetError)
+						if !ok {
+							panic(r)
+						}
+						s.fatal = ne
+						s.pickNext(nil)
+					}
+				}()
+				s.pickNext(nil)
+			}()
 		}()
 		f()
 	}()
